@@ -22,6 +22,8 @@ Compression implementations for a Transport.
 
 import zlib
 
+from paramiko.ssh_exception import SSHException
+
 
 class ZlibCompressor:
     def __init__(self):
@@ -37,4 +39,8 @@ class ZlibDecompressor:
         self.z = zlib.decompressobj()
 
     def __call__(self, data):
-        return self.z.decompress(data)
+        try:
+            return self.z.decompress(data)
+        except zlib.error as e:
+            # the peer sent something that is not a deflate stream
+            raise SSHException("Invalid compressed packet: {}".format(e))
